@@ -30,7 +30,8 @@ pub fn ntp_to_system_time(ntp: u64) -> Result<SystemTime> {
     }
     let seconds_utc = seconds_ntp - 2208988800u64;
     let fraction = ntp & 0xFFFFFFFF;
-    let submicro = ((fraction as u128 * 1000000u128) / (1u128 << 32)) as u64;
+    // Round to the nearest microsecond (the fraction written by system_time_to_ntp is truncated)
+    let submicro = ((fraction as u128 * 1000000u128 + (1u128 << 31)) / (1u128 << 32)) as u64;
     let utc_micro = (seconds_utc * 1000000u64) + submicro;
     Ok(SystemTime::UNIX_EPOCH + std::time::Duration::from_micros(utc_micro))
 }
